@@ -223,6 +223,15 @@ fn path_names(prefix: &str, sels: &[ASel], out: &mut Vec<String>) {
 }
 
 /// known-finding classes of C02, computed from the input alone (never from the failure)
+/// the open C02 finding (if any) that explains why the code generated for this input does not compile — computed from
+/// the INPUT and the error codes, never from the fact of failing alone; used by the other wire-level checks to excuse a
+/// case of theirs that does not compile for a reason recorded under C02
+pub fn known_compile_class(schema: &ASchema, doc: &ADoc, opts: &Opts, codes: &[String]) -> Option<&'static str> {
+    let c = Case { idx: 0, schema: schema.clone(), doc: doc.clone(), sdl: String::new(), qtext: String::new(), opts: opts.clone(), forms: vec![], sc_module: false,
+        recursive_fragment: doc.has_recursive_fragment(), corpus_class: None };
+    finding_class(&c, codes)
+}
+
 fn finding_class(c: &Case, codes: &[String]) -> Option<&'static str> {
     let has = |code: &str| codes.iter().any(|e| e.starts_with(code));
     if c.recursive_fragment && has("E0275") && c.opts.response_derives.as_deref().map(|d| d.contains("Serialize")).unwrap_or(false) {
